@@ -1,5 +1,5 @@
 (* C18 — The local server exposes profile and symbol API only under the secret path. *)
-From SV Require Import Generated.Consts Model.Server Proofs.ServerProofs Proofs.Base32Inj.
+From SV Require Import Generated.Consts Model.Server Proofs.ServerProofs Proofs.Base32Inj Spec.TokenVariety.
 Open Scope N_scope.
 
 (* Every request whose path does not begin with "/" ++ token - whatever the method, the path and the
@@ -52,7 +52,15 @@ Theorem C18_token_injective :
     to_nix_base32 a = to_nix_base32 b -> a = b.
 Proof. exact token_injective. Qed.
 
+(* "long enough not to be guessable" cannot be a theorem about one run; what the correspondence run checks on every observed token is that its 24 bytes
+   take at least 10 distinct values.  The arithmetic behind that bound: of all 256^24 byte strings, those with fewer than 10 distinct values (counted as
+   sum over k < 10 of 256 * 255 * .. * (256-k+1) * S(24, k), Spec/TokenVariety.v) are fewer than one in 10^19 *)
+Theorem C18_token_variety_arith :
+  low_variety_count 256 24 10 * 10 ^ 19 < 256 ^ 24.
+Proof. exact low_variety_rare. Qed.
+
 Print Assumptions C18_no_prefix_no_cors.
+Print Assumptions C18_token_variety_arith.
 Print Assumptions C18_token_injective.
 Print Assumptions C18_prefix_characterised.
 Print Assumptions C18_prefix_dispatch.
